@@ -9,6 +9,15 @@ TRUST = [
 ]
 
 CONFIG = {
+    "C09": {
+        "level": "fault_enumeration",
+        "gates_of": ["C01"],
+        "assumptions": TRUST + ["faults are injected at the fake transport, identified by (service, query text, occurrence), so they are independent of goroutine scheduling",
+                                "failure signals are: transport error, non-2xx, non-JSON, non-array, wrong array length, errors, missing data, missing or mistyped node; node:null and data:null are not (a service may legitimately say 'not found')",
+                                "cases showing the syntactic feature of an open known finding are excluded and counted"],
+        "quick": {"tests": [("TestC09", 400)], "shards": 4, "timeout": 900},
+        "thorough": {"tests": [("TestC09", 5000)], "shards": 16, "timeout": 3000},
+    },
     "C11": {
         "level": "exploration",
         "assumptions": TRUST + ["completion order of the concurrent HTTP calls is controlled at the transport (calls are parked and released by drawn priorities); the reducer's own interleaving is reached only through it"],
